@@ -345,3 +345,153 @@ Proof.
         split; [exact B4|]. split; [exact B5|]. rewrite <- G1c, <- G2c. exact B6.
     + exfalso. injection Ea as _ <-. destruct Hin as [Hx|[]]; discriminate.
 Qed.
+
+(* ------------------------------------------------------------------ EvConnected, every step *)
+Lemma mem_z_false x l : mem_z x l = false -> ~ In x l.
+Proof.
+  unfold mem_z. intros H Hin. assert (Ht : existsb (Z.eqb x) l = true); [|congruence].
+  apply existsb_exists. exists x. split; [exact Hin|apply Z.eqb_refl].
+Qed.
+
+Theorem connected_event_facts s o s' e t k :
+  d_inv s -> dstep s o = (s', e) -> In (EvConnected t k) e ->
+  exists pushes addr m c m1 m2 sid,
+    (* it is a ST_STATE datagram that no existing connection claimed *)
+    o = DoRunOnce pushes (ArmRecv addr (Some m)) /\ dm_type m = ST_STATE /\
+    (* the connector side receives on the connection id of that datagram, from its address *)
+    k = {| k_addr := addr; k_conn := dm_conn m |} /\
+    (* it is paired with the FIRST pending connect to that address whose SYN carried the
+       sequence number the datagram acknowledges; that connect's slot is released *)
+    pending s addr = m1 ++ c :: m2 /\ cn_token c = t /\ cn_seq c = dm_ack m /\
+    (forall x, In x m1 -> cn_seq x <> dm_ack m) /\ pending s' addr = m1 ++ m2 /\
+    (* under a key that was not in use; the connection object goes to that connector, which is alive *)
+    ~ In k (keys (d_streams s)) /\ In (live_entry k sid) (d_streams s') /\
+    In (t, CrOk k) (d_results s') /\ ~ In t (d_dead_connectors s).
+Proof.
+  intros Hinv H Hin.
+  destruct o as [pushes ar|id|id|id|addr token|addr token|addr token|k1];
+    try (quiet H Hs; destruct Hin).
+  destruct (run_once_decomp _ _ _ _ _ Hinv H) as (s1 & e1 & e3 & Ec & Ea & -> & Hinv1 & Hacc & Hfr & Hinv2 & Hsame).
+  destruct (cleanup_keeps _ _ _ Ec) as (_ & K2 & _).
+  destruct Hfr as [B1 B2 B3 B4 B5].
+  destruct Hsame as (P1 & P2 & P3 & P4 & P5 & P6 & P7 & P8 & P9 & P10 & P11 & P12 & P13).
+  set (s2 := fold_left push_acceptor pushes s1) in *.
+  apply in_app_or in Hin. destruct Hin as [Hin|Hin].
+  { exfalso. unfold all_accepted in Hacc. rewrite Forall_forall in Hacc. exact (Hacc _ Hin). }
+  unfold arm_step in Ea. destruct ar as [|send|addr [m|]].
+  - exfalso. destruct (d_next_acc s2); [injection Ea as _ <-; destruct Hin|].
+    destruct (d_chan s2); injection Ea as _ <-; destruct Hin.
+  - exfalso. destruct (d_control s2) as [|c r]; [injection Ea as _ <-; destruct Hin|].
+    exact (on_control_events _ _ _ _ _ Ea _ Hin).
+  - unfold on_recv in Ea. destruct (find_stream s2 _) as [en|] eqn:Ef.
+    { exfalso. destruct (se_alive en); injection Ea as _ <-; destruct Hin as [Hx|[]]; discriminate. }
+    destruct (dm_type m) eqn:Et; try (exfalso; injection Ea as _ <-; destruct Hin as [Hx|[]]; discriminate).
+    + pose proof (on_maybe_connect_ack_slots _ _ _ _ _ Hinv2 Ef Ea) as Hsl. cbv zeta in Hsl.
+      destruct (streams_full s2); [exfalso; destruct Hsl as [_ ->]; destruct Hin as [Hx|[]]; discriminate|].
+      assert (Hpend : slots_of s2 addr = slots_of s addr)
+        by (apply slots_of_same_connecting; congruence).
+      rewrite Hpend in Hsl.
+      destruct (slots_pop _ (slots_of s addr)) as [[c sl']|] eqn:Ep;
+        [|exfalso; destruct Hsl as [_ ->]; destruct Hin as [Hx|[]]; discriminate].
+      destruct Hsl as (S1 & _ & _ & _ & _ & _ & _ & _ & _ & Hsl).
+      destruct (mem_z (cn_token c) (d_dead_connectors s2)) eqn:Em;
+        [exfalso; destruct Hsl as [-> _]; destruct Hin as [Hx|[]]; discriminate|].
+      destruct Hsl as (-> & S2 & S3). destruct Hin as [Hx|[]]. injection Hx as <- <-.
+      destruct (slots_pop_somes _ _ _ _ Ep) as (m1 & m2 & Q1 & Q2 & Q3 & Q4 & _).
+      exists pushes, addr, m, c, m1, m2, (d_next_sid s2).
+      split; [reflexivity|]. split; [exact Et|]. split; [reflexivity|].
+      split; [exact Q1|]. split; [reflexivity|]. split; [apply Z.eqb_eq; exact Q3|].
+      split; [intros x Hx; apply Z.eqb_neq; apply Q4; exact Hx|].
+      split; [unfold pending; rewrite S1; exact Q2|].
+      split.
+      { intro Hk. apply (find_none_not_in _ _ Ef). eapply incl_keys; [|exact Hk]. rewrite P1. exact B4. }
+      split; [rewrite S2; apply in_or_app; right; left; reflexivity|].
+      split; [rewrite S3; apply in_or_app; right; left; reflexivity|].
+      apply mem_z_false in Em. rewrite P12, K2 in Em. exact Em.
+    + exfalso. assert (Hst2 : st_inv s2) by (destruct Hinv2 as (J1 & J2 & _); split; assumption).
+      assert (Hlen2 : Z.of_nat (length (d_syns s2)) <= ACCEPT_QUEUE_MAX_SYNS) by (destruct Hinv2 as (_ & _ & J3 & _); exact J3).
+      destruct (on_syn_spec _ _ _ _ Hst2 Hlen2 Ea) as (_ & _ & _ & D & _).
+      destruct D as [[Hacc3 _]|(e0 & Hacc0 & -> & _)].
+      * unfold all_accepted in Hacc3. rewrite Forall_forall in Hacc3. exact (Hacc3 _ Hin).
+      * apply in_app_or in Hin. destruct Hin as [Hin|[Hx|[]]]; [|discriminate].
+        unfold all_accepted in Hacc0. rewrite Forall_forall in Hacc0. exact (Hacc0 _ Hin).
+  - exfalso. injection Ea as _ <-. destruct Hin as [Hx|[]]; discriminate.
+Qed.
+
+(* ------------------------------------------------------------------ the two ends *)
+(* Dispatcher A (seen by B as address pa) connects to dispatcher B (seen by A as address pb).
+   The SYN on the wire carries the id c A announced; B's acceptor side is registered under
+   (pa, c + 1).  B's connection sends with connection id c (StreamArgs::new_incoming:
+   conn_id_send = remote_syn.connection_id, a field the dispatcher model does not carry, hence
+   the hypothesis dm_conn mA = c); A's connector side is then registered under (pb, c).
+   So: A receives on c, B receives on c + 1. *)
+Theorem wiring_cross_keys c :
+  forall sB pushesB pa mB sB' eB acc kB,
+    d_inv sB -> d_syns sB = [] -> dm_type mB = ST_SYN -> dm_conn mB = c ->
+    dstep sB (DoRunOnce pushesB (ArmRecv pa (Some mB))) = (sB', eB) -> In (EvAccepted acc kB) eB ->
+  forall sA pushesA pb mA sA' eA t kA,
+    d_inv sA -> dm_conn mA = c ->
+    dstep sA (DoRunOnce pushesA (ArmRecv pb (Some mA))) = (sA', eA) -> In (EvConnected t kA) eA ->
+  kB = {| k_addr := pa; k_conn := wadd16 c 1 |} /\ kA = {| k_addr := pb; k_conn := c |} /\
+  k_conn kB = wadd16 (k_conn kA) 1.
+Proof.
+  intros sB pushesB pa mB sB' eB acc kB HinvB HsynB HtB HcB EB HinB
+         sA pushesA pb mA sA' eA t kA HinvA HcA EA HinA.
+  destruct (accepted_event_facts _ _ _ _ _ _ HinvB EB HinB) as (y & sid & Hy & -> & _).
+  destruct Hy as [Hy|(p & a0 & m0 & Ho & _ & ->)]; [rewrite HsynB in Hy; destruct Hy|].
+  injection Ho as _ <- <-.
+  destruct (connected_event_facts _ _ _ _ _ _ HinvA EA HinA)
+    as (p' & a1 & m1 & c1 & l1 & l2 & sid' & Ho' & _ & -> & _).
+  injection Ho' as _ <- <-.
+  unfold syn_key, syn_of; cbn [sy_addr sy_conn k_conn]. rewrite HcB, HcA. auto.
+Qed.
+
+(* ------------------------------------------------------------------ StreamArgs *)
+(* NOT part of the frozen dispatcher model.  The model records of Sock/Dispatcher.v carry, of
+   the StreamArgs the Rust code builds in match_syn_with_accept / on_maybe_connect_ack, only
+   conn_id_recv (as k_conn of the key in EvAccepted / EvConnected, `sentry`, d_handed, CrOk):
+     - `devent.EvAccepted (acceptor, k)`, `devent.EvConnected (token, k)`, `sentry`, the
+       payload (skey * Z) of `d_handed` and `cresult.CrOk k` have no field for conn_id_send,
+       seq_nr, last_sent_seq_nr, last_consumed_remote_seq_nr, last_sent_ack_nr, rtt,
+       remote_window, last_remote_timestamp;
+     - match_syn_with_accept draws the acceptor's initial sequence number and discards it
+       (`let '(s1, _) := next_random s`);
+     - `dmsg` has no timestamp / wnd_size, `connecting` has no `start`.
+   The record below is a transcription (by inspection, not differentially checked at this tier)
+   of the id / sequence-number fields of StreamArgs::new_incoming / new_outgoing
+   (src/stream_dispatch.rs); Conn/VSockRun.v `vsock_new` has the same formulas at the
+   connection tier (v_conn_id_send, v_seq_nr, v_last_sent_seq_nr, v_last_consumed) where they
+   ARE differentially checked.  The lemma only records that the two transcriptions fit together
+   when the SYN-ACK echoes what new_incoming prescribes. *)
+Record sargs := {
+  sa_conn_id_recv : Z; sa_conn_id_send : Z; sa_seq_nr : Z; sa_last_sent_seq_nr : Z;
+  sa_last_consumed_remote_seq_nr : Z; sa_last_sent_ack_nr : Z }.
+
+Definition sargs_incoming (next_seq_nr : Z) (y : syn) : sargs :=
+  {| sa_conn_id_recv := wadd16 (sy_conn y) 1; sa_conn_id_send := sy_conn y;
+     sa_seq_nr := next_seq_nr; sa_last_sent_seq_nr := wsub16 next_seq_nr 1;
+     sa_last_consumed_remote_seq_nr := sy_seq y; sa_last_sent_ack_nr := sy_seq y |}.
+
+Definition sargs_outgoing (m : dmsg) : sargs :=
+  {| sa_conn_id_recv := dm_conn m; sa_conn_id_send := wadd16 (dm_conn m) 1;
+     sa_seq_nr := wadd16 (dm_ack m) 1; sa_last_sent_seq_nr := dm_ack m;
+     sa_last_consumed_remote_seq_nr := wsub16 (dm_seq m) 1; sa_last_sent_ack_nr := wsub16 (dm_seq m) 1 |}.
+
+Lemma sargs_cross (isn : Z) (y : syn) (m : dmsg) :
+  let b := sargs_incoming isn y in
+  (* the SYN-ACK B's connection sends: its conn_id_send, its seq_nr, acking the SYN *)
+  dm_conn m = sa_conn_id_send b -> dm_seq m = sa_seq_nr b -> dm_ack m = sa_last_sent_ack_nr b ->
+  let a := sargs_outgoing m in
+  sa_conn_id_recv a = sa_conn_id_send b /\ sa_conn_id_send a = sa_conn_id_recv b /\
+  (* the keys the model registers are the receive ids *)
+  k_conn (syn_key y) = sa_conn_id_recv b /\
+  (* A's SYN carried seq_nr = sy_seq y: A continues after it, B has consumed exactly it *)
+  sa_last_sent_seq_nr a = sy_seq y /\ sa_last_consumed_remote_seq_nr b = sa_last_sent_seq_nr a /\
+  (* B's next packet has seq_nr isn: A pretends to have consumed isn - 1 *)
+  sa_last_consumed_remote_seq_nr a = sa_last_sent_seq_nr b.
+Proof.
+  cbv zeta. unfold sargs_incoming, sargs_outgoing, syn_key;
+    cbn [sa_conn_id_recv sa_conn_id_send sa_seq_nr sa_last_sent_seq_nr sa_last_consumed_remote_seq_nr
+         sa_last_sent_ack_nr k_conn].
+  intros -> -> ->. repeat split.
+Qed.
